@@ -19,7 +19,9 @@ RULE = ("1-3 Directory volumes (any mix of read-only / writable / marked full, r
         "followed by 1-6 GET/HEAD/PUT requests (PUT with matching body, corrupted body incl. the bytes of a planted "
         "corrupt copy, new block, unknown length); blocks of 2^18, k*2^20 and k*2^20+1 bytes (read boundaries of "
         "collision.go) in six corruption scenarios; exhaustive bit-flip and truncation sweeps over one small block per run; thorough adds sizes "
-        "around 2^15, 2^16, 2^18, 2^20 and BlockSize-1/BlockSize/BlockSize+1. A case is non-trivial when it "
+        "around 2^15, 2^16, 2^18, 2^20; BlockSize-1/BlockSize/BlockSize+1 blocks (zero-filled, sparse) in both tiers, "
+        "generated 64 MiB blocks in thorough; GET/PUT with the buffer pool exhausted and the client gone (Gb, Pb) and "
+        "PUT with a body shorter than its Content-Length (Ps). A case is non-trivial when it "
         "plants at least one non-intact copy or contains a PUT; distinct = distinct case line")
 ASSUMPTIONS = [
     "sequential requests: the file under a block path does not change between stat and read (races are C02/C04)",
@@ -30,6 +32,8 @@ ASSUMPTIONS = [
 TRUSTED = [
     "executable MD5 in Lean (ArvVerif/Base/MD5.lean), compared with Go crypto/md5 on every literal content",
     "for contents above 1 KiB the model is fed digest+length computed by the generator (hashlib) and re-checked by the Go driver",
+    "client disconnects in the middle of GetBlock/PutBlock are modelled (GetEnv.goneAfter, PutEnv.gone) and proved about, "
+    "but only the deterministic points (no buffer before disconnect, short body) are exercised by the driver",
     "the driver retries makeRRVolumeManager until the map-ordered mount list has the order named in the case",
 ]
 
@@ -108,23 +112,62 @@ def _expand(gen):
 _ZEROS = bytes(1 << 22)
 
 
+def _segments(gen):
+    """the content of a generator descriptor as a list of segments: bytes, or an int = run of zero
+    bytes (so that zero-extended 64 MiB contents are hashed without being built)"""
+    ops = gen.split("~")
+    seed, n = ops[0][1:].split("n")
+    segs = [bytes(_base(seed, int(n)))]
+
+    def total():
+        return sum(x if isinstance(x, int) else len(x) for x in segs)
+
+    def split_at(pos):
+        """make `pos` a segment boundary; returns the index of the segment starting at pos"""
+        off = 0
+        for i, x in enumerate(segs):
+            ln = x if isinstance(x, int) else len(x)
+            if pos == off:
+                return i
+            if pos < off + ln:
+                k = pos - off
+                segs[i:i + 1] = [k, ln - k] if isinstance(x, int) else [x[:k], x[k:]]
+                return i + 1
+            off += ln
+        return len(segs)
+
+    for op in ops[1:]:
+        if op[0] == "f":
+            p = int(op[1:])
+            i = split_at(p // 8)
+            split_at(p // 8 + 1)
+            x = segs[i]
+            old = 0 if isinstance(x, int) else x[0]
+            segs[i] = bytes([old ^ (1 << (p % 8))])
+        elif op[0] == "t":
+            i = split_at(int(op[1:]))
+            del segs[i:]
+        elif op[0] == "a":
+            segs.append(bytes.fromhex(op[1:]))
+        elif op[0] == "z":
+            segs.append(int(op[1:]) - total())
+    return [x for x in segs if (x if isinstance(x, int) else len(x)) > 0]
+
+
 def sym(gen):
     if gen not in _SYM_CACHE:
-        head, _, last = gen.rpartition("~")
-        if head and last.startswith("z"):
-            # zero-extension as the last op: hash incrementally instead of building the bytes
-            buf = _expand(head)
-            total = int(last[1:])
-            hsh = hashlib.md5(buf)
-            todo = total - len(buf)
-            while todo > 0:
-                n = min(todo, len(_ZEROS))
-                hsh.update(_ZEROS[:n] if n < len(_ZEROS) else _ZEROS)
-                todo -= n
-            _SYM_CACHE[gen] = (hsh.hexdigest(), total)
-        else:
-            buf = _expand(gen)
-            _SYM_CACHE[gen] = (hashlib.md5(buf).hexdigest(), len(buf))
+        hsh, total = hashlib.md5(), 0
+        for x in _segments(gen):
+            if isinstance(x, int):
+                total += x
+                while x > 0:
+                    n = min(x, len(_ZEROS))
+                    hsh.update(_ZEROS if n == len(_ZEROS) else _ZEROS[:n])
+                    x -= n
+            else:
+                total += len(x)
+                hsh.update(x)
+        _SYM_CACHE[gen] = (hsh.hexdigest(), total)
     m, n = _SYM_CACHE[gen]
     return Content(f"s{m}.{n}.{gen}", m, n)
 
@@ -177,6 +220,15 @@ class SymFactory:
     def zext(self, c, total):
         """c followed by zero bytes up to `total` bytes (planted as a sparse file by the driver)"""
         return sym(self._gen(c) + f"~z{total}")
+
+
+class ZextFactory(SymFactory):
+    """blocks of any size that are a small generated prefix followed by zero bytes: planted as sparse
+    files, so that BlockSize-sized blocks are cheap enough for the quick tier"""
+
+    def fresh(self, n):
+        small = SymFactory.fresh(self, min(n, self.rng.choice([1, 17, 4096])))
+        return small if small.length == n else self.zext(small, n)
 
 
 # ----------------------------------------------------------------------------- generator
@@ -262,9 +314,9 @@ def _random_case(rng, fac, sizes, collision=False):
             reqs.append(f"G:{b.md5}:{rng.choice([b.length, 0, 3])}")
         elif r < 0.45:
             reqs.append(f"H:{b.md5}")
-        elif r < 0.72:
+        elif r < 0.70:
             reqs.append(f"P:{b.md5}:{b.spec}")
-        elif r < 0.82:
+        elif r < 0.80:
             planted = [c for _, _, fs in vols for hh, c in fs if hh == b.md5 and c.md5 != b.md5]
             if planted and rng.random() < 0.4:
                 # the body is byte-identical to a corrupt copy already stored under the name
@@ -273,14 +325,24 @@ def _random_case(rng, fac, sizes, collision=False):
                 k = rng.choice(["flip", "trunc", "append", "other", "empty"])
                 c, _ = _corrupt(rng, fac, b, k, other_of.get(b.md5))
             reqs.append(f"P:{b.md5}:{c.spec}")
-        elif r < 0.88:
+        elif r < 0.86:
             nb = fac.fresh(rng.choice(sizes))
             reqs.append(f"P:{nb.md5}:{nb.spec}")
             if rng.random() < 0.5:
                 reqs.append(f"G:{nb.md5}")
-        elif r < 0.91:
+        elif r < 0.88:
             reqs.append(f"P:{b.md5}:{b.spec}:nocl")
-        elif r < 0.95:
+        elif r < 0.92:
+            # resource / transport failures: no pool buffer and client gone; short body
+            op = rng.choice(["Gb", "Pb", "Ps", "Ps"])
+            if op == "Gb":
+                reqs.append(f"Gb:{b.md5}")
+            else:
+                c = b
+                if rng.random() < 0.3:
+                    c, _ = _corrupt(rng, fac, b, rng.choice(["flip", "append", "empty"]), other_of.get(b.md5))
+                reqs.append(f"{op}:{b.md5}:{c.spec}")
+        elif r < 0.96:
             reqs.append(f"G:{'%032x' % rng.getrandbits(128)}")
         else:
             # ask for whatever sits under the name of a substituted block
@@ -406,6 +468,11 @@ def generate(rng, tier):
     # copies extended past BlockSize (TooLongError paths of stat / Get / Compare)
     for _ in range(10 if tier == "quick" else 80):
         cases.append(_oversize_case(rng, symf))
+    # BlockSize-1 / BlockSize / BlockSize+1 with zero-filled (sparse) blocks
+    zf = ZextFactory(rng)
+    for n in (BLOCKSIZE - 1, BLOCKSIZE, BLOCKSIZE + 1):
+        for scen in ((rng.randrange(6),) if tier == "quick" else range(6)):
+            cases.append(_boundary_case(rng, zf, n, scen + 6 * rng.randrange(4)))
     if tier != "quick":
         mids = [32767, 32768, 32769, 65535, 65536, 65537, (1 << 18) - 1, 1 << 18, (1 << 18) + 1,
                 (1 << 20) - 1, 1 << 20, (1 << 20) + 1, 2 << 20, (2 << 20) + 1, 3 << 20, 4 << 20]
@@ -485,7 +552,15 @@ def oracle(case, impl):
         h = p[1]
         intact = [i for i, v in enumerate(state) if h in v and v[h][0] == h and 0 <= v[h][1] <= BLOCKSIZE]
         m = main.split(",")
-        if p[0] in ("G", "H"):
+        if p[0] == "Gb":
+            # no buffer and the client gone: an error status is legitimate even with an intact copy;
+            # only the soundness clause applies
+            if len(m) != 4:
+                return "malformed driver output"
+            st, cl, blen, bmd5 = m
+            if st == "200" and (bmd5 != h or cl != blen or not intact):
+                return f"{req}: 200 with a body whose MD5 is {bmd5} / length {blen} vs Content-Length {cl}"
+        elif p[0] in ("G", "H"):
             if len(m) != 4:
                 return "malformed driver output"
             st, cl, blen, bmd5 = m
@@ -551,10 +626,11 @@ def describe(cases, impl):
         if "=s" in c or ":s" in c:
             d["symbolic_cases"] += 1
         for r in reqs:
-            d["requests"][r[0]] = d["requests"].get(r[0], 0) + 1
+            op = r.split(":", 1)[0]
+            d["requests"][op] = d["requests"].get(op, 0) + 1
         if out:
             for r, res in zip(reqs, out.split(";")):
-                key = r[0] + res.split(",", 1)[0]
+                key = r.split(":", 1)[0] + res.split(",", 1)[0]
                 d["statuses"][key] = d["statuses"].get(key, 0) + 1
     return d
 
@@ -576,7 +652,7 @@ def neighbours(case, rng):
         flags, rest = v.split(":", 1)
         nf = {"w": "r", "r": "w", "wf": "w", "rf": "wf"}[flags]
         out.append(f"c01 {'/'.join(vols[:i] + [nf + ':' + rest] + vols[i + 1:])} {rs}")
-    hashes = sorted({r.split(":")[1] for r in reqs})
+    hashes = sorted({r.split(":")[1] for r in reqs if ":" in r})
     for h in hashes:
         out.append(f"c01 {vs} {';'.join(['G:' + h] + reqs + ['G:' + h, 'H:' + h])}")
     # fresh small random cases keep the search going when the disagreement is not local
